@@ -25,6 +25,10 @@ checks = [
   "bounded-exhaustive enumeration of structure trees x finite float patterns on the real GeoJSON codec vs an independent structural check of the JSON text",
   "Every tree of the six types (1..3 members, first non-empty) with every rotation of 19 finite float64 patterns is encoded, the text re-read with json.Number and checked for exact RFC 7946 nesting and [x,y] literals, and decoded back bit-exactly; every single non-finite substitution must be rejected.",
   "Trusts encoding/json's tokenizer for re-reading the text and strconv.ParseFloat.", "4/C06"),
+ ("C13", MC, "E1",
+  "bounded-exhaustive enumeration of all vertex sequences over a general-position point set x tolerances on the real Simplify in isolated workers (termination is part of the property) vs exact integer simplicity and distance oracles",
+  "Every vertex sequence of length 0..5 (thorough 0..6 over 16 points) over a point set with no three collinear points (verified exactly), repetitions allowed, x six tolerances is simplified by the real code in a worker with an address-space limit; termination, subsequence, endpoint, tolerance (existence of an embedding), exact simplicity preservation, input immutability and member independence are checked for every call.",
+  "Trusts the integer segment-intersection test in checks/c13; a worker silent for 60 s or dead counts as non-termination of the announced case.", "4/C13"),
  ("C15", MC, "E1",
   "bounded-exhaustive enumeration of derived geometry pairs (perturbation patterns, all member permutations, all ring rotations, every single displacement, deletion, duplication, reversal, type change) on the real Similar vs the truth table of the statement, both directions",
   "For 19 base geometries of all eight types and two tolerances every derived geometry of the listed kinds is compared in both directions; the expected value follows from the statement alone.",
